@@ -5,8 +5,12 @@ import random, itertools
 # boundary-rich value set (distinguishes CastToBool, minimality, sign handling, 4/5-byte overflow)
 VALS = [b"", b"\x00", b"\x01", b"\x02", b"\x10", b"\x11", b"\x7f", b"\x80", b"\x81", b"\xff", b"\x00\x80", b"\x80\x00",
         b"\xff\x7f", b"\xff\xff\x00", b"\xff\xff\xff\x7f", b"\xff\xff\xff\xff", b"\xff\xff\xff\xff\x7f", b"\x01\x00\x00\x00\x80",
-        b"\x00\x00", b"\x05\x00", b"\x03"]
+        b"\x00\x00", b"\x05\x00", b"\x03",
+        # five bytes whose top byte carries only the sign: minimal encodings of +-2^31 .. +-(2^32-1)
+        b"\x00\x00\x00\x80\x00", b"\xff\xff\xff\xff\x00", b"\x00\x00\x00\x80\x80", b"\xff\xff\xff\xff\x80"]
 SMALLVALS = VALS[:10]
+# the quick tier's operand set: the short boundary values plus one of each five-byte kind
+QUICKVALS = VALS[:12] + [b"\xff\xff\xff\x7f", b"\xff\xff\xff\xff\x7f", b"\x01\x00\x00\x00\x80", b"\x00\x00\x00\x80\x00", b"\xff\xff\xff\xff\x00"]
 
 OP = {n: v for v, n in enumerate([])}
 OPNAMES = {}
